@@ -92,13 +92,11 @@ def compare_history(start, toks, recs, baseline, r):
         ref = baseline.get(baseline_key(tok))
         if mres[i] == 4:
             # an undocumented verbosity rejected by the wrapper once a console exists: any error will do (outside the quantifier)
-            if err is None:
-                return '%s: the model\'s wrapper rejects this verbosity, the implementation returned' % where
+            # ... and an implementation that ACCEPTS it (e.g. plain integer levels) is no disagreement about the property either:
+            # the level after the call is still compared above at the next step
             continue
         if mres[i] == 3:
-            if err is None:
-                return '%s: the (pinned) model raises KeyError, the implementation returned' % where
-            continue
+            continue        # (same: a console level without a standard name may be restored instead of raising)
         exp_err = own_error(tok, baseline) if mres[i] == 2 else None
         if ref != UNSTABLE and err != exp_err:
             return '%s: error impl=%s model=%s' % (where, err, exp_err)
